@@ -351,6 +351,72 @@ theorem asType_spec (a b : Seq α) (x : List α) (ha : a.symbols = .ok x) :
   · intro hext
     simp [Seq.asType, hext]
 
+/-- Decoding codes that are valid for a prefix alphabet gives the same symbols in the longer alphabet. -/
+theorem decode_prefix (big small : List α) (hext : extends_ big small = true) (cs : List Int) (x : List α)
+    (h : decode small cs = .ok x) : decode big cs = .ok x := by
+  obtain ⟨hpre, _⟩ := extends_prefix hext
+  unfold decode at *
+  refine mapE_ok_transfer _ _ _ _ h ?_
+  intro c _ y hy
+  obtain ⟨h0, h1, hget⟩ := decode1_ok hy
+  have hlt : c.toNat < small.length := by omega
+  have hb : big[c.toNat]? = some y := by
+    have : (big.take small.length)[c.toNat]? = big[c.toNat]? := by
+      rw [List.getElem?_take]; simp [hlt]
+    rw [← this, ← hpre]; exact hget
+  have hcn : ((c.toNat : Nat) : Int) = c := by omega
+  have := decode1_ofNat hb
+  rw [hcn] at this
+  exact this
+
+/-- `a + b` when one alphabet extends the other: the strings are concatenated and the result has
+the longer alphabet (and the class of the operand owning it); otherwise `ValueError`. -/
+theorem add_spec (a b : Seq α) (x y : List α) (ha : a.symbols = .ok x) (hb : b.symbols = .ok y) :
+    (extends_ a.alph b.alph = true →
+      ∃ c, a.add b = .ok c ∧ c.symbols = .ok (x ++ y) ∧ c.alph = a.alph ∧ c.kind = a.kind) ∧
+    (extends_ a.alph b.alph = false → extends_ b.alph a.alph = true →
+      ∃ c, a.add b = .ok c ∧ c.symbols = .ok (x ++ y) ∧ c.alph = b.alph ∧ c.kind = b.kind) ∧
+    (extends_ a.alph b.alph = false → extends_ b.alph a.alph = false → a.add b = .error .valueError) := by
+  refine ⟨fun h1 => ?_, fun h1 h2 => ?_, fun h1 h2 => by simp [Seq.add, h1, h2]⟩
+  · refine ⟨{ a with codes := a.codes ++ b.codes }, by simp [Seq.add, h1], ?_, rfl, rfl⟩
+    have hb' := decode_prefix a.alph b.alph h1 _ y hb
+    unfold Seq.symbols decode at *
+    simp only [List.map_append]
+    exact mapE_append _ _ _ _ _ ha hb'
+  · refine ⟨{ b with codes := a.codes ++ b.codes }, by simp [Seq.add, h1, h2], ?_, rfl, rfl⟩
+    have ha' := decode_prefix b.alph a.alph h2 _ x ha
+    unfold Seq.symbols decode at *
+    simp only [List.map_append]
+    exact mapE_append _ _ _ _ _ ha' hb
+
+/-- numpy's broadcast of ONE symbol over a slice. -/
+theorem setSlice_broadcast (s : Seq α) (x : List α) (h : s.symbols = .ok x) (a b : Option Int) (y : α)
+    (hy : y ∈ s.alph) (hw : (sliceBounds x.length a b).2 - (sliceBounds x.length a b).1 ≠ 1) :
+    ∃ s', s.setSlice a b [y] = .ok s' ∧
+      s'.symbols = .ok (x.take (sliceBounds x.length a b).1 ++
+        List.replicate ((sliceBounds x.length a b).2 - (sliceBounds x.length a b).1) y ++
+        x.drop (sliceBounds x.length a b).2) := by
+  rw [symbols_length s x h] at hw ⊢
+  obtain ⟨c, hc⟩ := indexOf?_of_mem hy
+  have henc : encode s.alph [y] = .ok [c] := mapE_cons_ok _ _ _ _ _ (encode1_ok_iff.mpr hc) rfl
+  generalize hsb : sliceBounds s.codes.length a b = lohi at hw ⊢
+  obtain ⟨lo, hi⟩ := lohi
+  have hne : ¬ ([c] : List Nat).length = hi - lo := by simpa using fun e => hw e.symm
+  have hplace : placeCodes s.codes a b [c] = .ok (s.codes.take lo ++ List.replicate (hi - lo) c ++ s.codes.drop hi) := by
+    simp only [placeCodes, hsb, hne, if_false]
+  refine ⟨{ s with codes := s.codes.take lo ++ List.replicate (hi - lo) c ++ s.codes.drop hi },
+    by simp [Seq.setSlice, henc, hplace], ?_⟩
+  have hrep : mapE (decode1 s.alph) ((List.replicate (hi - lo) c).map Int.ofNat) = .ok (List.replicate (hi - lo) y) := by
+    generalize hi - lo = n
+    induction n with
+    | zero => rfl
+    | succ n ih =>
+      simp only [List.replicate_succ, List.map_cons]
+      exact mapE_cons_ok _ _ _ _ _ (decode1_ofNat (indexOf?_some hc)) ih
+  unfold Seq.symbols decode at *
+  simp only [List.map_append, List.map_take, List.map_drop]
+  exact mapE_append _ _ _ _ _ (mapE_append _ _ _ _ _ (mapE_take _ _ _ h _) hrep) (mapE_drop _ _ _ h _)
+
 end Laws
 
 end BiotiteModel.C03
